@@ -962,9 +962,13 @@ fn b_fft_filter(src: &mut Src, env: &Env) -> Case {
     c.reference = Some(Box::new(move |c, complete| {
         let d = &c.in_typed::<Complex>(0).data;
         let got = &c.out_typed::<Complex>(0).got;
-        let cnt = d.len() / bl * bl;
-        if got.len() > cnt || got.len() % bl != 0 || (complete && got.len() != cnt) {
-            return Err(format!("FftFilter: {} outputs for {} inputs (block {bl}); expected {cnt}", got.len(), d.len()));
+        // How many samples an overlap-save filter holds back at the end is its
+        // block size, an implementation choice (today `bl`): never more
+        // outputs than inputs, and once the input is complete less than a few
+        // blocks missing.
+        let slack = 8 * (bl + nt);
+        if got.len() > d.len() || (complete && got.len() + slack <= d.len()) {
+            return Err(format!("FftFilter: {} outputs for {} inputs (block {bl} today; up to {slack} may be held back)", got.len(), d.len()));
         }
         let fftn = (bl + nt) as f64;
         // FFT rounding error scales with the energy of the whole block, not
@@ -1008,9 +1012,9 @@ fn b_fft_filter_float(src: &mut Src, env: &Env) -> Case {
     c.reference = Some(Box::new(move |c, complete| {
         let d: Vec<Complex> = c.in_typed::<f32>(0).data.iter().map(|&x| Complex::new(x, 0.0)).collect();
         let got = &c.out_typed::<f32>(0).got;
-        let cnt = d.len() / bl * bl;
-        if got.len() > cnt || (complete && got.len() != cnt) {
-            return Err(format!("FftFilterFloat: {} outputs for {} inputs (block {bl}); expected {cnt}", got.len(), d.len()));
+        let slack = 8 * (bl + nt);
+        if got.len() > d.len() || (complete && got.len() + slack <= d.len()) {
+            return Err(format!("FftFilterFloat: {} outputs for {} inputs (block {bl} today; up to {slack} may be held back)", got.len(), d.len()));
         }
         let fftn = (bl + nt) as f64;
         let tsum: f64 = taps.iter().map(|t| t.norm() as f64).sum();
@@ -1200,22 +1204,72 @@ fn b_au_encode(src: &mut Src, env: &Env) -> Case {
     c.outs = vec![StreamOut::new(o)];
     c.reference = Some(Box::new(move |c, complete| {
         let d = &c.in_typed::<f32>(0).data;
-        let mut exp: Vec<u8> = Vec::new();
-        exp.extend(0x2e736e64u32.to_be_bytes());
-        exp.extend(28u32.to_be_bytes());
-        exp.extend(0xffffffffu32.to_be_bytes());
-        exp.extend(3u32.to_be_bytes());
-        exp.extend(rate.to_be_bytes());
-        exp.extend(1u32.to_be_bytes());
-        exp.extend([0u8; 4]);
-        for x in d {
-            let v = x * 32767.0;
-            let q: i16 = if v.is_nan() { 0 } else if v >= 32767.0 { 32767 } else if v <= -32768.0 { -32768 } else { v.trunc() as i16 };
-            exp.extend(q.to_be_bytes());
-        }
-        expect_exact("AuEncode", &c.out_typed::<u8>(0).got, &exp, complete)
+        let q: Vec<i16> = d
+            .iter()
+            .map(|x| {
+                let v = x * 32767.0;
+                if v.is_nan() { 0 } else if v >= 32767.0 { 32767 } else if v <= -32768.0 { -32768 } else { v.trunc() as i16 }
+            })
+            .collect();
+        au_check(&c.out_typed::<u8>(0).got, rate, &q, complete).map_err(|e| format!("AuEncode: {e}"))
     }));
     c
+}
+
+/// Is `bytes` (a prefix of) a valid .au stream of these PCM16 samples? The
+/// header is checked field by field, not byte for byte: magic, data offset
+/// (>= 24, at most 1 KiB: any annotation length is allowed), size (unknown or
+/// the true size), encoding 3, rate, one channel; the samples follow at the
+/// data offset. `complete`: everything must be there.
+pub fn au_check(bytes: &[u8], rate: u32, samples: &[i16], complete: bool) -> Result<(), String> {
+    let be = |i: usize| u32::from_be_bytes([bytes[i], bytes[i + 1], bytes[i + 2], bytes[i + 3]]);
+    if bytes.len() < 24 {
+        if complete {
+            return Err(format!("{} bytes emitted: shorter than the fixed part of an .au header", bytes.len()));
+        }
+        // Prefix of a header: the magic, as far as it goes.
+        let m = 0x2e736e64u32.to_be_bytes();
+        for (i, b) in bytes.iter().take(4).enumerate() {
+            if *b != m[i] {
+                return Err(format!("byte {i} is {b:#x}: not the .au magic"));
+            }
+        }
+        return Ok(());
+    }
+    if be(0) != 0x2e736e64 {
+        return Err(format!("magic is {:#x}", be(0)));
+    }
+    let off = be(4) as usize;
+    if !(24..=1024).contains(&off) {
+        return Err(format!("data offset {off} (must be >= 24)"));
+    }
+    let size = be(8);
+    if size != 0xffff_ffff && size as usize != samples.len() * 2 {
+        return Err(format!("size field {size}, {} bytes of samples follow", samples.len() * 2));
+    }
+    if be(12) != 3 {
+        return Err(format!("encoding {} (16-bit linear PCM is 3)", be(12)));
+    }
+    if be(16) != rate {
+        return Err(format!("sample rate field {}, block was given {rate}", be(16)));
+    }
+    if be(20) != 1 {
+        return Err(format!("channels field {}", be(20)));
+    }
+    if bytes.len() < off {
+        return if complete { Err(format!("{} bytes emitted, header says samples start at {off}", bytes.len())) } else { Ok(()) };
+    }
+    let body = &bytes[off..];
+    if body.len() > samples.len() * 2 || (complete && body.len() != samples.len() * 2) {
+        return Err(format!("{} bytes of samples emitted for {} input samples", body.len(), samples.len()));
+    }
+    for (k, ch) in body.chunks(2).enumerate() {
+        let want = samples[k].to_be_bytes();
+        if ch[0] != want[0] || (ch.len() > 1 && ch[1] != want[1]) {
+            return Err(format!("sample {k} is {ch:02x?}, big-endian PCM16 of the input is {want:02x?}"));
+        }
+    }
+    Ok(())
 }
 
 pub fn au_bytes(rate: u32, samples: &[i16]) -> Vec<u8> {
